@@ -189,6 +189,25 @@ theorem raw_header_block_stripped (ls : List Bytes) (hok : ∀ l ∈ ls, l ≠ [
   have := consume_block ls {} body rfl rfl hok
   exact ⟨this.1, this.2.2⟩
 
+/-- **raw modes keep every header line the application wrote** — "exactly one header block carrying every header and cookie
+the application set": for a block of ordinary `Name: value` lines (token names other than `Status`/`Content-Length`, which
+are assignments; names may repeat in any mix of case, values may be empty), the header set handed to the connection has
+exactly those lines as its added headers, all of them, in the order written; the body follows untouched.  (How the parser
+stores a line — `add_header`, not `set_header` — is read from the source: `Gen.rawLineKept`.) -/
+theorem raw_header_lines_all_kept (ls : List (Bytes × Bytes)) (hok : ∀ kv ∈ ls, RawLineOk kv) (body : Bytes) :
+    filterOf true (((ls.map fun kv => kv.1 ++ [58, 32] ++ kv.2).map (· ++ [13, 10])).flatten ++ 13 :: 10 :: body) = body ∧
+    (({} : RawParser).consume (((ls.map fun kv => kv.1 ++ [58, 32] ++ kv.2).map (· ++ [13, 10])).flatten ++ 13 :: 10 :: body)).2.2 =
+      some { map := [], added := ls.map fun kv => kv.1 ++ [58, 32] ++ kv.2 } :=
+  raw_lines_all_kept ls hok body
+
+/-- non-vacuity: `Set-Cookie: a=1`, `set-cookie: b=2`, `X-Trace:` (empty value), `Set-Cookie: c=3` -/
+example : ∀ kv ∈ ([(b [83,101,116,45,67,111,111,107,105,101], b [97,61,49]), (b [115,101,116,45,99,111,111,107,105,101], b [98,61,50]),
+    (b [88,45,84,114,97,99,101], []), (b [83,101,116,45,67,111,111,107,105,101], b [99,61,51])] : List (Bytes × Bytes)), RawLineOk kv := by
+  intro kv hkv
+  simp only [List.mem_cons, List.not_mem_nil, or_false] at hkv
+  rcases hkv with h | h | h | h <;> subst h <;>
+    exact ⟨by decide, by decide, by decide, by decide, by decide⟩
+
 /-- non-vacuity / illustration: unbuffered device, a write larger than the buffer, a put, a setbuf that forces a flush -/
 example : (Dev.run (Dev.fresh false true false 2, []) [.put [1,2,3], .putc 4, .putc 5, .setbuf 1, .put [6]]).2.sends = [([1,2,3], false), ([4,5], false)]
     ∧ (Dev.run (Dev.fresh false true false 2, []) [.put [1,2,3], .putc 4, .putc 5, .setbuf 1, .put [6]]).1.content = [6] := by
